@@ -84,6 +84,35 @@ theorem median_middle (o : Ops σ) (ho : LinOrd o.le) (xs s : List σ)
                   else o.mid (s.getD (s.length / 2 - 1) o.zero) (s.getD (s.length / 2) o.zero) :=
   median_of_sorted o ho hs hp
 
+/-! ## 2b. per-batch scores that are NaN
+
+A heuristic can be undefined on a batch (Pearson on a column that is constant there): the recorded score is NaN, `none` in
+the model.  `aggregateSkip` is what `groupby(...).median()` does with them. -/
+
+/-- C08-2n: every ordered pair that occurs has exactly one aggregated row; its score is the median of the pair's DEFINED
+per-batch scores, and undefined only if none of them is defined. -/
+theorem aggregateSkip_is_median_of_defined [DecidableEq κ] (kle : κ → κ → Bool) (o : Ops σ)
+    (rows : List (κ × Option σ)) (k : κ) (m : Option σ) :
+    (k, m) ∈ aggregateSkip kle o rows ↔
+      (∃ s, (k, s) ∈ rows) ∧
+      m = (if (definedScores rows k).isEmpty then none else some (median o (definedScores rows k))) :=
+  mem_aggregateSkip kle o rows k m
+
+/-- … and it is a conservative extension: when every score is defined it is the aggregation of C08-2, row for row. -/
+theorem aggregateSkip_without_nan [DecidableEq κ] (kle : κ → κ → Bool) (o : Ops σ) (rows : List (κ × σ)) :
+    aggregateSkip kle o (rows.map fun r => (r.1, some r.2)) = (aggregate kle o rows).map fun r => (r.1, some r.2) :=
+  aggregateSkip_of_defined kle o rows
+
+/-- the order in which the triplets were recorded (batch order, worker completion order) does not matter -/
+theorem aggregateSkip_perm [DecidableEq κ] (kle : κ → κ → Bool) (o : Ops σ) (hk : LinOrd kle) (ho : LinOrd o.le)
+    {rows rows' : List (κ × Option σ)} (hp : rows.Perm rows') :
+    aggregateSkip kle o rows = aggregateSkip kle o rows' :=
+  aggregateSkip_perm' kle o hk ho hp
+
+/-- non-vacuity: one pair with scores 3, NaN, 5 (median of the defined ones: 4) and one pair with NaN only -/
+example : aggregateSkip (fun a b : Nat => decide (a ≤ b)) (⟨fun a b => decide (a ≤ b), fun a b => (a + b) / 2, 0⟩ : Ops Nat)
+    [(1, some 3), (2, none), (1, none), (1, some 5)] = [(1, some 4), (2, none)] := by decide
+
 /-! ## 3. the checkpoint -/
 
 /-- C08-3: for a non-`Constant` heuristic, after every processed batch (tail batch included) the checkpoint on disk is
